@@ -1,0 +1,550 @@
+// Verification facade, compiled only with `--cfg metrique_verif_loom` (never in normal builds).
+//
+// Under that flag the crates of this workspace take their synchronisation primitives from
+// here instead of `std` / crossbeam, so that a controlled scheduler (loom) sees every
+// synchronisation step of the real code. Nothing in this file changes behaviour of a normal
+// build: the module does not exist there.
+#![allow(missing_docs, dead_code, clippy::all)]
+
+pub use loom;
+
+/// A loom-visible marker for an operation on an object loom cannot see into (the real
+/// crossbeam `ArrayQueue`, the real tokio `oneshot`, a harness callback): one SeqCst RMW on a
+/// per-object atomic immediately before the real call makes the call one indivisible,
+/// DPOR-visible step that conflicts with every other step on the same object.
+pub mod shadow {
+    use loom::sync::atomic::{AtomicUsize, Ordering};
+
+    #[derive(Debug)]
+    pub struct Shadow(AtomicUsize);
+
+    impl Default for Shadow {
+        fn default() -> Self {
+            Self::new()
+        }
+    }
+
+    impl Shadow {
+        pub fn new() -> Self {
+            Shadow(AtomicUsize::new(0))
+        }
+        #[inline]
+        pub fn touch(&self) {
+            self.0.fetch_add(1, Ordering::SeqCst);
+        }
+    }
+}
+
+pub mod sync {
+    pub use loom::sync::{Arc, Condvar, Mutex, MutexGuard, RwLock, RwLockReadGuard, RwLockWriteGuard};
+    pub mod atomic {
+        pub use loom::sync::atomic::*;
+    }
+}
+
+pub mod thread {
+    pub use loom::thread::*;
+}
+
+/// The one lock + condition variable behind every blocking facade primitive (parker, channel,
+/// fake clock). A single monitor keeps "wait until token / message / deadline" free of lost
+/// wake-ups without a timed wait (which loom does not model).
+mod monitor {
+    use loom::sync::{Condvar, Mutex, MutexGuard};
+
+    pub(super) struct Mon {
+        /// number of threads currently blocked in a *timed* wait
+        pub sleepers: usize,
+    }
+
+    loom::lazy_static! {
+        static ref MON: Mutex<Mon> = Mutex::new(Mon { sleepers: 0 });
+        static ref CV: Condvar = Condvar::new();
+    }
+
+    pub(super) fn lock() -> MutexGuard<'static, Mon> {
+        MON.lock().unwrap()
+    }
+    pub(super) fn wait(g: MutexGuard<'static, Mon>) -> MutexGuard<'static, Mon> {
+        CV.wait(g).unwrap()
+    }
+    pub(super) fn notify_all() {
+        CV.notify_all();
+    }
+}
+
+/// Fake time. `Instant::now()` reads a loom-visible counter; time only moves when the harness
+/// says so.
+pub mod time {
+    use super::monitor;
+    use loom::sync::atomic::{AtomicU64, Ordering};
+    pub use std::time::Duration;
+
+    loom::lazy_static! {
+        static ref NOW_NS: AtomicU64 = AtomicU64::new(0);
+        static ref READS: AtomicU64 = AtomicU64::new(0);
+        // (read index, jump in ns); u64::MAX = no jump scheduled
+        static ref JUMP_AT: AtomicU64 = AtomicU64::new(u64::MAX);
+        static ref JUMP_NS: AtomicU64 = AtomicU64::new(0);
+    }
+
+    #[derive(Clone, Copy, Debug, PartialEq, Eq, PartialOrd, Ord, Hash)]
+    pub struct Instant(u64);
+
+    impl Instant {
+        pub fn now() -> Instant {
+            let k = READS.fetch_add(1, Ordering::SeqCst);
+            if k == JUMP_AT.load(Ordering::SeqCst) {
+                // a deadline that expires between two instructions of the code under test
+                let g = monitor::lock();
+                NOW_NS.fetch_add(JUMP_NS.load(Ordering::SeqCst), Ordering::SeqCst);
+                monitor::notify_all();
+                drop(g);
+            }
+            Instant(NOW_NS.load(Ordering::SeqCst))
+        }
+        pub fn elapsed(&self) -> Duration {
+            Instant::now().duration_since(*self)
+        }
+        pub fn duration_since(&self, earlier: Instant) -> Duration {
+            Duration::from_nanos(self.0.saturating_sub(earlier.0))
+        }
+        pub fn as_nanos(&self) -> u64 {
+            self.0
+        }
+    }
+
+    impl std::ops::Add<Duration> for Instant {
+        type Output = Instant;
+        fn add(self, d: Duration) -> Instant {
+            Instant(self.0.saturating_add(d.as_nanos().min(u64::MAX as u128) as u64))
+        }
+    }
+
+    impl std::ops::Sub<Instant> for Instant {
+        type Output = Duration;
+        fn sub(self, o: Instant) -> Duration {
+            self.duration_since(o)
+        }
+    }
+
+    /// time since the (fake) epoch, for the rate limiter
+    pub fn since_epoch() -> Duration {
+        Duration::from_nanos(NOW_NS.load(Ordering::SeqCst))
+    }
+
+    /// Peek without counting as a read (for oracles).
+    pub fn peek_ns() -> u64 {
+        NOW_NS.load(Ordering::SeqCst)
+    }
+
+    /// Harness: set the clock at the start of an execution.
+    pub fn set_ns(ns: u64) {
+        NOW_NS.store(ns, Ordering::SeqCst);
+    }
+
+    /// Harness: the `k`-th `Instant::now()` of this execution returns a time `d` later.
+    pub fn jump_at_read(k: u64, d: Duration) {
+        JUMP_NS.store(d.as_nanos() as u64, Ordering::SeqCst);
+        JUMP_AT.store(k, Ordering::SeqCst);
+    }
+
+    pub fn reads() -> u64 {
+        READS.load(Ordering::SeqCst)
+    }
+
+    /// Harness: move time forward and wake every timed sleeper.
+    pub fn advance(d: Duration) {
+        let g = monitor::lock();
+        NOW_NS.fetch_add(d.as_nanos() as u64, Ordering::SeqCst);
+        monitor::notify_all();
+        drop(g);
+    }
+
+    /// Harness: block until some thread sleeps in a timed wait, then move time forward (a timer
+    /// that expires while the thread is asleep). Returns false if `give_up` becomes true first
+    /// (checked whenever the monitor is signalled).
+    pub fn advance_when_idle(d: Duration, give_up: impl Fn() -> bool) -> bool {
+        let mut g = monitor::lock();
+        loop {
+            if g.sleepers > 0 {
+                NOW_NS.fetch_add(d.as_nanos() as u64, Ordering::SeqCst);
+                monitor::notify_all();
+                return true;
+            }
+            if give_up() {
+                return false;
+            }
+            g = monitor::wait(g);
+        }
+    }
+
+    /// Signal the monitor (used by harness objects whose state `give_up` closures look at).
+    pub fn poke() {
+        let g = monitor::lock();
+        monitor::notify_all();
+        drop(g);
+    }
+
+    /// A timed wait: blocks until `ready()` or the fake clock reaches `deadline`.
+    /// `ready` is evaluated under the monitor lock.
+    pub(super) fn wait_until(deadline: Option<Instant>, mut ready: impl FnMut() -> bool) -> bool {
+        let mut g = monitor::lock();
+        loop {
+            if ready() {
+                return true;
+            }
+            if let Some(d) = deadline {
+                if NOW_NS.load(Ordering::SeqCst) >= d.0 {
+                    return false;
+                }
+                g.sleepers += 1;
+                monitor::notify_all();
+                g = monitor::wait(g);
+                g.sleepers -= 1;
+            } else {
+                g = monitor::wait(g);
+            }
+        }
+    }
+}
+
+/// crossbeam's `Parker` / `Unparker` contract: one token; `park*` consumes it or waits for it;
+/// `park_deadline` also returns once the (fake) clock reaches the deadline.
+pub mod park {
+    use super::{monitor, time};
+    use loom::sync::Arc;
+    use loom::sync::atomic::{AtomicBool, Ordering};
+
+    pub struct Parker {
+        token: Arc<AtomicBool>,
+        unparker: Unparker,
+    }
+
+    #[derive(Clone)]
+    pub struct Unparker {
+        token: Arc<AtomicBool>,
+    }
+
+    impl Default for Parker {
+        fn default() -> Self {
+            let token = Arc::new(AtomicBool::new(false));
+            Parker {
+                unparker: Unparker {
+                    token: token.clone(),
+                },
+                token,
+            }
+        }
+    }
+
+    impl Parker {
+        pub fn new() -> Self {
+            Self::default()
+        }
+        pub fn unparker(&self) -> &Unparker {
+            &self.unparker
+        }
+        pub fn park(&self) {
+            let token = &self.token;
+            time::wait_until(None, || token.swap(false, Ordering::SeqCst));
+        }
+        pub fn park_deadline(&self, deadline: time::Instant) {
+            let token = &self.token;
+            time::wait_until(Some(deadline), || token.swap(false, Ordering::SeqCst));
+        }
+        pub fn park_timeout(&self, d: time::Duration) {
+            self.park_deadline(time::Instant::now() + d)
+        }
+    }
+
+    impl Unparker {
+        pub fn unpark(&self) {
+            self.token.store(true, Ordering::SeqCst);
+            let g = monitor::lock();
+            monitor::notify_all();
+            drop(g);
+        }
+    }
+}
+
+/// std::sync::mpsc's contract on a loom mutex (loom's own mpsc does not branch on an empty
+/// `try_recv` and has no `recv_timeout`).
+pub mod mpsc {
+    use super::{monitor, time};
+    use loom::sync::{Arc, Mutex};
+    use std::collections::VecDeque;
+    pub use std::sync::mpsc::{RecvError, RecvTimeoutError, SendError, TryRecvError};
+
+    struct Chan<T> {
+        q: Mutex<State<T>>,
+    }
+    struct State<T> {
+        items: VecDeque<T>,
+        senders: usize,
+        receiver_alive: bool,
+    }
+
+    pub struct Sender<T> {
+        chan: Arc<Chan<T>>,
+    }
+    pub struct Receiver<T> {
+        chan: Arc<Chan<T>>,
+    }
+
+    pub fn channel<T>() -> (Sender<T>, Receiver<T>) {
+        let chan = Arc::new(Chan {
+            q: Mutex::new(State {
+                items: VecDeque::new(),
+                senders: 1,
+                receiver_alive: true,
+            }),
+        });
+        (Sender { chan: chan.clone() }, Receiver { chan })
+    }
+
+    impl<T> Sender<T> {
+        pub fn send(&self, v: T) -> Result<(), SendError<T>> {
+            // the monitor is held across the push so a blocked receiver cannot miss it
+            let g = monitor::lock();
+            let mut st = self.chan.q.lock().unwrap();
+            if !st.receiver_alive {
+                return Err(SendError(v));
+            }
+            st.items.push_back(v);
+            drop(st);
+            monitor::notify_all();
+            drop(g);
+            Ok(())
+        }
+    }
+
+    impl<T> Clone for Sender<T> {
+        fn clone(&self) -> Self {
+            self.chan.q.lock().unwrap().senders += 1;
+            Sender {
+                chan: self.chan.clone(),
+            }
+        }
+    }
+
+    impl<T> Drop for Sender<T> {
+        fn drop(&mut self) {
+            let g = monitor::lock();
+            self.chan.q.lock().unwrap().senders -= 1;
+            monitor::notify_all();
+            drop(g);
+        }
+    }
+
+    impl<T> Receiver<T> {
+        pub fn try_recv(&self) -> Result<T, TryRecvError> {
+            let mut st = self.chan.q.lock().unwrap();
+            match st.items.pop_front() {
+                Some(v) => Ok(v),
+                None if st.senders == 0 => Err(TryRecvError::Disconnected),
+                None => Err(TryRecvError::Empty),
+            }
+        }
+        pub fn recv(&self) -> Result<T, RecvError> {
+            let mut res = None;
+            time::wait_until(None, || {
+                let mut st = self.chan.q.lock().unwrap();
+                match st.items.pop_front() {
+                    Some(v) => {
+                        res = Some(Ok(v));
+                        true
+                    }
+                    None if st.senders == 0 => {
+                        res = Some(Err(RecvError));
+                        true
+                    }
+                    None => false,
+                }
+            });
+            res.unwrap()
+        }
+        pub fn recv_timeout(&self, d: time::Duration) -> Result<T, RecvTimeoutError> {
+            let deadline = time::Instant::now() + d;
+            let mut res = None;
+            let ready = time::wait_until(Some(deadline), || {
+                let mut st = self.chan.q.lock().unwrap();
+                match st.items.pop_front() {
+                    Some(v) => {
+                        res = Some(Ok(v));
+                        true
+                    }
+                    None if st.senders == 0 => {
+                        res = Some(Err(RecvTimeoutError::Disconnected));
+                        true
+                    }
+                    None => false,
+                }
+            });
+            if ready {
+                res.unwrap()
+            } else {
+                Err(RecvTimeoutError::Timeout)
+            }
+        }
+    }
+
+    impl<T> Drop for Receiver<T> {
+        fn drop(&mut self) {
+            // undelivered messages are dropped with the receiver (std's contract)
+            let drained: Vec<T> = {
+                let mut st = self.chan.q.lock().unwrap();
+                st.receiver_alive = false;
+                st.items.drain(..).collect()
+            };
+            drop(drained);
+        }
+    }
+}
+
+/// `Arc` / `Weak` with std's algorithm on loom atomics (loom's own `Arc` has no `Weak`).
+/// Sized payloads only.
+pub mod varc {
+    use loom::sync::atomic::{AtomicUsize, Ordering, fence};
+    use std::mem::ManuallyDrop;
+    use std::ptr::NonNull;
+
+    struct Inner<T> {
+        strong: AtomicUsize,
+        // the strong references collectively hold one weak reference
+        weak: AtomicUsize,
+        data: std::cell::UnsafeCell<ManuallyDrop<T>>,
+    }
+
+    pub struct Arc<T> {
+        ptr: NonNull<Inner<T>>,
+    }
+    pub struct Weak<T> {
+        ptr: NonNull<Inner<T>>,
+    }
+
+    unsafe impl<T: Send + Sync> Send for Arc<T> {}
+    unsafe impl<T: Send + Sync> Sync for Arc<T> {}
+    unsafe impl<T: Send + Sync> Send for Weak<T> {}
+    unsafe impl<T: Send + Sync> Sync for Weak<T> {}
+
+    impl<T> Arc<T> {
+        pub fn new(value: T) -> Arc<T> {
+            let b = Box::new(Inner {
+                strong: AtomicUsize::new(1),
+                weak: AtomicUsize::new(1),
+                data: std::cell::UnsafeCell::new(ManuallyDrop::new(value)),
+            });
+            Arc {
+                ptr: NonNull::from(Box::leak(b)),
+            }
+        }
+        fn inner(&self) -> &Inner<T> {
+            unsafe { self.ptr.as_ref() }
+        }
+        pub fn downgrade(this: &Arc<T>) -> Weak<T> {
+            this.inner().weak.fetch_add(1, Ordering::Relaxed);
+            Weak { ptr: this.ptr }
+        }
+        pub fn strong_count(this: &Arc<T>) -> usize {
+            this.inner().strong.load(Ordering::SeqCst)
+        }
+    }
+
+    impl<T> From<T> for Arc<T> {
+        fn from(v: T) -> Self {
+            Arc::new(v)
+        }
+    }
+
+    impl<T> Clone for Arc<T> {
+        fn clone(&self) -> Self {
+            self.inner().strong.fetch_add(1, Ordering::Relaxed);
+            Arc { ptr: self.ptr }
+        }
+    }
+
+    impl<T> std::ops::Deref for Arc<T> {
+        type Target = T;
+        fn deref(&self) -> &T {
+            unsafe { &*self.inner().data.get() }
+        }
+    }
+
+    impl<T> AsRef<T> for Arc<T> {
+        fn as_ref(&self) -> &T {
+            self
+        }
+    }
+
+    impl<T: std::fmt::Debug> std::fmt::Debug for Arc<T> {
+        fn fmt(&self, f: &mut std::fmt::Formatter<'_>) -> std::fmt::Result {
+            std::fmt::Debug::fmt(&**self, f)
+        }
+    }
+
+    impl<T> Drop for Arc<T> {
+        fn drop(&mut self) {
+            if self.inner().strong.fetch_sub(1, Ordering::Release) != 1 {
+                return;
+            }
+            fence(Ordering::Acquire);
+            unsafe {
+                ManuallyDrop::drop(&mut *self.inner().data.get());
+            }
+            // drop the weak reference held collectively by the strong ones
+            drop(Weak { ptr: self.ptr });
+        }
+    }
+
+    impl<T> Weak<T> {
+        pub fn upgrade(&self) -> Option<Arc<T>> {
+            let inner = unsafe { self.ptr.as_ref() };
+            let mut n = inner.strong.load(Ordering::Relaxed);
+            loop {
+                if n == 0 {
+                    return None;
+                }
+                match inner.strong.compare_exchange_weak(
+                    n,
+                    n + 1,
+                    Ordering::Acquire,
+                    Ordering::Relaxed,
+                ) {
+                    Ok(_) => return Some(Arc { ptr: self.ptr }),
+                    Err(old) => {
+                        n = old;
+                        loom::thread::yield_now();
+                    }
+                }
+            }
+        }
+    }
+
+    impl<T> Clone for Weak<T> {
+        fn clone(&self) -> Self {
+            unsafe { self.ptr.as_ref() }
+                .weak
+                .fetch_add(1, Ordering::Relaxed);
+            Weak { ptr: self.ptr }
+        }
+    }
+
+    impl<T> Drop for Weak<T> {
+        fn drop(&mut self) {
+            let inner = unsafe { self.ptr.as_ref() };
+            if inner.weak.fetch_sub(1, Ordering::Release) == 1 {
+                fence(Ordering::Acquire);
+                unsafe {
+                    drop(Box::from_raw(self.ptr.as_ptr()));
+                }
+            }
+        }
+    }
+
+    impl<T> std::fmt::Debug for Weak<T> {
+        fn fmt(&self, f: &mut std::fmt::Formatter<'_>) -> std::fmt::Result {
+            f.write_str("(Weak)")
+        }
+    }
+}
